@@ -399,3 +399,79 @@ Example C15_gaps_nonvacuous_gene_in_both :
   exists f, find_all_orfs g cds (Some area) 5 10 = Ok [f] /\
             floc f = [mkPart 35 47 1; mkPart 0 6 1] /\ ftrans f = [77; 75; 75; 75; 75].
 Proof. cbn zeta. repeat (split; [vm_compute; reflexivity|]). eexists. vm_compute. repeat split. Qed.
+
+(* ================================================================== third deepening pass: the whole argument space of
+   scan_orfs(seq, direction, offset, minimum_length, record_length) on a circular record *)
+
+(* Model.ring_text g off len = the len bases of the ring g from position off on, positions taken modulo the record length,
+   for ANY integer off; ring_window = the same or its reverse complement.  The windows of the earlier theorems
+   (window_ok: inside the record, or starting before the origin - the only calls find_all_orfs makes) are such windows *)
+Theorem C15_window_is_ring_window : forall g off end_ direction, window_ok (zlen g) off end_ ->
+  window g off end_ direction = ring_window g off (end_ - off) direction.
+Proof. exact window_ring_window. Qed.
+Print Assumptions C15_window_is_ring_window.
+
+(* C15_coordinates_extract_ring without any restriction on the offset or on the window length: for EVERY genome, every
+   integer offset (negative, zero, positive with the window overshooting the record end by any amount, beyond the record
+   length), both strands, every stretch [s, e] of the scanned text that is not longer than the record: the location
+   scan_orfs computes for (s, e) extracts from the genome to exactly text[s .. e] *)
+Theorem C15_coordinates_extract_any_offset : forall g off len direction s e,
+  (direction = 1 \/ direction = -1) -> 0 <= s -> s <= e -> e < len -> e - s + 1 <= zlen g ->
+  extract g (orf_location direction off len (Some (zlen g)) (s, e)) =
+  slice (ring_window g off len direction) s (e + 1).
+Proof. exact extract_orf_ring_any. Qed.
+Print Assumptions C15_coordinates_extract_any_offset.
+
+(* tied to scan_orfs itself, any offset, any window length: every location RETURNED comes from an ORF [a, b] of one of the
+   three frames of the upper-cased window text; when that ORF is not longer than the record (always so for a window not
+   longer than the record) the location extracts to the window text from a to b, that text is an ORF by the run-time test
+   (whole codons, start codon first, stop codon last and nowhere else), the location lies inside [0, N) with at most two
+   parts split at the origin in transcription order (Model.ring_shape_ok), and it occupies exactly the ORF's positions on
+   the ring *)
+Theorem C15_coordinates_any_offset : forall g off len direction minimum l,
+  0 <= len -> (direction = 1 \/ direction = -1) ->
+  In l (scan_orfs (ring_window g off len direction) direction off minimum (Some (zlen g))) ->
+  exists frame a b, (frame <= 2)%nat /\
+    In (a, b) (frame_orfs (map upper (ring_window g off len direction)) frame minimum) /\
+    0 <= a /\ a < b /\ b < len /\
+    l = orf_location direction off len (Some (zlen g)) (a, b) /\
+    (b - a + 1 <= zlen g ->
+       extract g l = slice (ring_window g off len direction) a (b + 1) /\
+       orf_text_b (extract g l) = true /\
+       ring_shape_ok (zlen g) direction l = true /\
+       positions l = expected_positions direction off len (Some (zlen g)) (a, b)).
+Proof. exact scan_orfs_ring_any. Qed.
+Print Assumptions C15_coordinates_any_offset.
+
+(* the run-time specification of run id 13 (Model.spec_scan_ring: ring shape, extraction gives an ORF text, extraction gives
+   the text of an ORF of the window, generator consistency) holds for the model's output on every window not longer than
+   the record, wherever the window begins *)
+Theorem C15_scan_ring_spec_ok : forall g off len direction minimum,
+  0 <= len -> len <= zlen g -> (direction = 1 \/ direction = -1) ->
+  let W := ring_window g off len direction in
+  skipn 3 (spec_scan_ring g W direction off minimum (scan_orfs W direction off minimum (Some (zlen g)))) = [1; 1; 1; 1].
+Proof. exact scan_ring_spec_verdict. Qed.
+Print Assumptions C15_scan_ring_spec_ok.
+
+(* non-vacuity, and the inputs a seeded defect of the fourth round needed (wrapping only `if offset < 0`): ring of 30 bases
+   CCC TAA CCC .. CCC ATG AAA (ORF ATG AAA CCC TAA over the origin, positions 24..29 + 0..5).  The window of 18 bases told
+   by its real start 21 overshoots the record end by 9: the ORF is reported in two parts split at the origin; told as
+   starting 9 before the origin (offset -9) or one turn later (offset 51) the answer is the same; on the reverse strand of
+   the reverse-complemented ring the two parts come in the opposite order; an ORF lying wholly after the origin in an
+   overshooting window ([33:42) in window coordinates) is reported at [3:12) *)
+Example C15_coordinates_any_offset_nonvacuous :
+  let g := [67; 67; 67; 84; 65; 65] ++ repeat 67 18 ++ [65; 84; 71; 65; 65; 65] in
+  let g2 := [67; 67; 67; 65; 84; 71; 65; 65; 65; 84; 65; 65] ++ repeat 67 18 in
+  zlen g = 30 /\
+  ring_window g 21 18 1 = [67; 67; 67; 65; 84; 71; 65; 65; 65; 67; 67; 67; 84; 65; 65; 67; 67; 67] /\
+  scan_orfs (ring_window g 21 18 1) 1 21 6 (Some 30) = [[mkPart 24 30 1; mkPart 0 6 1]] /\
+  scan_orfs (ring_window g (-9) 18 1) 1 (-9) 6 (Some 30) = [[mkPart 24 30 1; mkPart 0 6 1]] /\
+  scan_orfs (ring_window g 51 18 1) 1 51 6 (Some 30) = [[mkPart 24 30 1; mkPart 0 6 1]] /\
+  extract g [mkPart 24 30 1; mkPart 0 6 1] = [65; 84; 71; 65; 65; 65; 67; 67; 67; 84; 65; 65] /\
+  scan_orfs (ring_window (revcomp g) 21 18 (-1)) (-1) 21 6 (Some 30) = [[mkPart 0 6 (-1); mkPart 24 30 (-1)]] /\
+  extract (revcomp g) [mkPart 0 6 (-1); mkPart 24 30 (-1)] = [65; 84; 71; 65; 65; 65; 67; 67; 67; 84; 65; 65] /\
+  scan_orfs (ring_window g2 27 18 1) 1 27 6 (Some 30) = [[mkPart 3 12 1]] /\
+  spec_scan_ring g (ring_window g 21 18 1) 1 21 6 [[mkPart 24 30 1; mkPart 0 6 1]] = [1; 1; 1; 1; 1; 1; 1] /\
+  (* what the seeded defect returned: outside the record, one part - rejected by the specification *)
+  spec_scan_ring g (ring_window g 21 18 1) 1 21 6 [[mkPart 24 36 1]] = [0; 1; 0; 0; 0; 0; 1].
+Proof. cbn zeta. repeat split; vm_compute; reflexivity. Qed.
